@@ -74,12 +74,15 @@ var c15Sources = map[string]string{
 	"pf.p":      "x = [1, 2]\nfor i = 0; i < 5; i = i + 1 { printf(\"%v %v\\n\", \"item\", x[i]) }\n",
 	// an unknown zone (asked for again by every run), a known one, and the default
 	"tz.p": "default_time(ts, \"Mars/Olympus_Mons\")\nadd_key(after, 1)\ndefault_time(ts2, \"Asia/Tokyo\")\n",
+	// slices with literal steps larger than one input and smaller than another; a collection without JSON text written over a string field
+	"slice.p":   "add_key(s1, message[::5])\nadd_key(s2, message[1:9:3])\nl = [1, 2, 3, 4, 5, 6, 7]\nadd_key(s3, l[::4])\nadd_key(s4, f1s[::2])\n",
+	"nanlist.p": "big = 1e308 * 10.0\nadd_key(message, [1, big - big])\nadd_key(f1, {\"limit\": big})\nadd_key(after, 1)\n",
 	"lit.p":    "g = [[0, 0], [1]]\ng[0][0] += 1\nm = {\"k\": [0], \"j\": {\"n\": 0}}\nm[\"k\"][0] += 1\nm[\"j\"][\"n\"] = m[\"j\"][\"n\"] + 1\nadd_key(g0, g[0][0])\nadd_key(mk, m[\"k\"][0])\nadd_key(mj, m[\"j\"][\"n\"])\nif \"a\" in [\"a\", \"b\"] { add_key(found, true) }\nsql_cover(sq)\nset_tag(newtag, \"set on a point that came without tags\")\n",
 }
 
 func c15Points() []PointSpec {
 	return []PointSpec{
-		{Meas: "m1", Tags: map[string]string{"t1": "tv"}, Fields: map[string]any{"message": "hello 42", "f1": int64(7), "f2": 2.5, "sq": `select * from t where dir = 'c:\temp\'`, "fj": `{"a": [1], "level": "info"}`, "ts": "2021-01-02 03:04:05", "ts2": "2021-03-04 05:06:07"}, Time: 1600000000000000000},
+		{Meas: "m1", Tags: map[string]string{"t1": "tv"}, Fields: map[string]any{"message": "hello 42", "f1": int64(7), "f2": 2.5, "sq": `select * from t where dir = 'c:\temp\'`, "fj": `{"a": [1], "level": "info"}`, "f1s": "a fairly long string field", "ts": "2021-01-02 03:04:05", "ts2": "2021-03-04 05:06:07"}, Time: 1600000000000000000},
 		{Meas: "m2", Tags: nil, Fields: map[string]any{"message": "x", "sq": "SELECT 'a\\' , b -- '\nFROM t"}, Time: 1}, // no tags at all (as every text input)
 		{Meas: "m3", Tags: map[string]string{"t1": "a", "t2": "b", "t3": "c"}, Fields: map[string]any{"message": nil, "f1": "s", "f2": true, "f3": int64(1), "f4": int64(2), "sq": `select "prod\users" from t where p = 'x\'`}, Time: 2},
 	}
@@ -219,6 +222,9 @@ func c15Ops() []c15Op {
 		runOp("usebad.p", 0, 0),
 		runOp("pf.p", 1, 0),
 		runOp("tz.p", 0, 0),
+		runOp("slice.p", 1, 0),
+		runOp("slice.p", 0, 0),
+		runOp("nanlist.p", 0, 0),
 		keepLoad,
 		runKept,
 		runV2("dflt.p"),
@@ -513,7 +519,7 @@ func init() {
 	run.Register(&run.Check{
 		ID:    "C15",
 		Level: "model_checking",
-		Rule: "operation histories of length <=3 (thorough <=4) over 33 operations: a script full of escaped literals loaded by one operation, held, and run by a later one; a run asking for an unknown, a known and the default time zone; load-and-run of a grok script with global patterns / under a local pattern of the same name / of another deployment whose entry file has the same text as a loaded one; load of a valid / syntax-error / lexer-error / parser-panic / check-error source, of texts entering every lexer mode, of a text whose last token (no line break after it) raises a constructor fault; v2 runs of scripts that change default parameter values in place, fail inside a loop after assigning variables, read names; run of scripts that succeed, fail inside a loop, exit inside nested blocks, set variables, read the same names unbound, use grok + use(), delete and re-add tags and fields, each on a point taken from the point pool; runs cancelled at poll 1 and 7; " +
+		Rule: "operation histories of length <=3 (thorough <=4) over 36 operations: slices with literal steps on a short and on a long input; a collection without JSON text written over existing fields; a script full of escaped literals loaded by one operation, held, and run by a later one; a run asking for an unknown, a known and the default time zone; load-and-run of a grok script with global patterns / under a local pattern of the same name / of another deployment whose entry file has the same text as a loaded one; load of a valid / syntax-error / lexer-error / parser-panic / check-error source, of texts entering every lexer mode, of a text whose last token (no line break after it) raises a constructor fault; v2 runs of scripts that change default parameter values in place, fail inside a loop after assigning variables, read names; run of scripts that succeed, fail inside a loop, exit inside nested blocks, set variables, read the same names unbound, use grok + use(), delete and re-add tags and fields, each on a point taken from the point pool; runs cancelled at poll 1 and 7; " +
 			"instrumented build with a sync.Pool shim: the answer of EVERY pool Get (parser, task, point, metadata) is an explorer choice — default LIFO reuse, then every deviation (any other pooled object, or a fresh one) at every Get, <=2 deviations per history (<=1 for the histories of maximal length); time.AfterFunc goes through a seam of the same overlay: a callback armed by one operation and not stopped may be delivered right after any pool Get of a later operation (one more kind of deviation; the unchanged tree arms no timer); " +
 			"oracle: the last operation's outcome (load verdict and error text / probe trace, canonical final point, error text, drop flag) equals the outcome of the same operation executed first in a fresh process (baselines are computed in separate subprocesses); loaded scripts are shared by all histories",
 		Assumptions: []string{"the pools and the loaded syntax trees are the only state that survives an operation (package-level variables were listed by reading the sources)"},
